@@ -179,3 +179,14 @@ class C06(Prop):
                 return "not associative"
             return None
         return refs.check_pipe(case, obs)
+
+    # ---- E3: coverage-guided fuzzing of the index functions (libFuzzer target with the oracle inside) ----
+    engines = ["hypothesis+sanitized-cpp-server", "libFuzzer (E3, harness/fuzz_index.cpp)"]
+
+    def extra_phases(self, ctx):
+        from .. import fuzz
+        return fuzz.fuzz_phase(self, "c06", ctx)
+
+    def replay_external(self, case):
+        from .. import fuzz
+        return fuzz.replay("c06", case) if case.get("fuzz") else []
